@@ -1,3 +1,5 @@
+//go:build drv_dirsrc || drv_all
+
 package main
 
 import (
